@@ -35,6 +35,8 @@ def m_ref(ctx, case):
     else:
         me = cpr.me_airborne(case["tc"], case["ss"], 0, case["alt"], case["tbit"], i, yz, xz)
     msg = "%028X" % bits.es_frame(case["df"], case["ca"], case["addr"], me)
+    if case.get("lower"):
+        msg = msg.lower()
     slat, slon, dlat, dlon = cpr.steps(rlat, i, sfc)
     nl = cpr.NL(rlat)
     if cpr.near_transition(rlat):
@@ -108,7 +110,7 @@ def mkcase(rng, lat, lon, i=None, sfc=None, offs=None):
             "tc": rng.choice((5, 6, 7, 8)) if sfc else rng.choice(list(range(9, 19)) + [20, 21, 22]),
             "mov": rng.randrange(128), "trk": rng.randrange(256), "ss": rng.randrange(4), "alt": rng.getrandbits(12),
             "tbit": rng.randrange(2), "df": rng.choice((17, 17, 18)), "ca": rng.randrange(8), "addr": rng.getrandbits(24),
-            "offs": offs}
+            "offs": offs, "lower": rng.random() < 0.1}
 
 
 def cases(ctx):
